@@ -2,6 +2,7 @@
 # usage: tools/mkmut.sh <ID> <name> <file-relative-to-repo> <python-regex-or-literal old> <new> [tests...]
 # creates mutants/<ID>/<name>.patch by replacing exactly one occurrence of <old> with <new> in a scratch copy
 set -e
+trap 'rm -rf "$TMP"' EXIT
 ID=$1; NAME=$2; FILE=$3; OLD=$4; NEW=$5; shift 5
 mkdir -p /verif/mutants/$ID
 TMP=$(mktemp -d /tmp/verif-mk-XXXX)
